@@ -6,7 +6,7 @@ key-carrying variant (computed from the type definition); the tree-shape functio
 type definition; wrapper translations go through the translator and the checking constructors."""
 
 from .. import model, symx
-from ..interp import Machine, Adt, Term, PyVec, PyIter, FnRef, Panic, explore, ok, err, some, NONE, RESULT
+from ..interp import Machine, Adt, Term, PyVec, PyIter, FnRef, Panic, explore, ok, err, some, NONE, RESULT, dcopy
 from ..report import Unsupported
 from . import c19
 
@@ -464,6 +464,170 @@ def check_wrappers(chk, F):
                        % (adt, adt, names), F.fns[p]["span"])
 
 
+# ---- R20.7 wrapper translations: outcome table -----------------------------------------------------------------------
+
+def check_wrapper_outcomes(chk, F):
+    from ..builtins import deref
+    rid = "R20.7"
+    chk.rule(rid, "descriptor wrappers (Bare, Pkh, Wpkh, Wsh, Sh over its three inner forms, Tr without / with a tree): "
+                  "translate_pk succeeds exactly when every key mapping and every inner translation succeeds and the "
+                  "checking constructor accepts the result, then it is that constructor's value over the mapped payloads "
+                  "(all leaves kept, in order, at their depths); a failing key mapping or inner translation is returned as "
+                  "that very error, a refusing constructor as TranslateErr::OuterError (outcome table, every position of "
+                  "the failure)")
+    TAPTREE = "descriptor::tr::TapTree"
+    TE = "TranslateErr"
+
+    def msv(name):
+        return Adt(MS, "Miniscript", {"node": Term("node", name), "ty": Term("ty"), "ext": Term("ext"), "phantom": (), "name": name})
+
+    def wrap(kind):
+        """(wrapper value, its translate_pk path, description of payload) for each wrapper form"""
+        D = "descriptor::"
+        if kind == "Bare":
+            return Adt(D + "bare::Bare", "Bare", {"ms": msv("m0")}), "bare.rs", "::Bare"
+        if kind == "Pkh":
+            return Adt(D + "bare::Pkh", "Pkh", {"pk": "K0"}), "bare.rs", "::Pkh"
+        if kind == "Wpkh":
+            return Adt(D + "segwitv0::Wpkh", "Wpkh", {"pk": "K0"}), "segwitv0.rs", "::Wpkh"
+        if kind == "Wsh":
+            return Adt(D + "segwitv0::Wsh", "Wsh", {"ms": msv("m0")}), "segwitv0.rs", "::Wsh"
+        if kind.startswith("Sh/"):
+            inner = {"Sh/Wsh": Adt(D + "sh::ShInner", "Wsh", {"0": wrap("Wsh")[0]}),
+                     "Sh/Wpkh": Adt(D + "sh::ShInner", "Wpkh", {"0": wrap("Wpkh")[0]}),
+                     "Sh/Ms": Adt(D + "sh::ShInner", "Ms", {"0": msv("m0")})}[kind]
+            return Adt(D + "sh::Sh", "Sh", {"inner": inner}), "sh.rs", "::Sh"
+        if kind == "Tr/-":
+            return Adt(D + "tr::Tr", "Tr", {"internal_key": "K0", "tree": NONE, "spend_info": Term("cache")}), "tr/mod.rs", "::Tr"
+        tree = Adt(TAPTREE, "TapTree", {"depths_leaves": PyVec([(1, msv("m0")), (2, msv("m1")), (2, msv("m2"))])})
+        return Adt(D + "tr::Tr", "Tr", {"internal_key": "K0", "tree": some(tree), "spend_info": Term("cache")}), "tr/mod.rs", "::Tr"
+
+    def units(kind):
+        """the things that can fail, in evaluation order does not matter: names of keys and scripts in the wrapper"""
+        return {"Bare": ["m0"], "Pkh": ["K0"], "Wpkh": ["K0"], "Wsh": ["m0"], "Sh/Wsh": ["m0"], "Sh/Wpkh": ["K0"],
+                "Sh/Ms": ["m0"], "Tr/-": ["K0"], "Tr/tree": ["m0", "m1", "m2", "K0"]}[kind]
+    ctor_of = {"Bare": ["Bare"], "Pkh": ["Pkh"], "Wpkh": ["Wpkh"], "Wsh": ["Wsh"], "Sh/Wsh": ["Wsh"], "Sh/Wpkh": ["Wpkh"],
+               "Sh/Ms": ["Sh"], "Tr/-": ["Tr"], "Tr/tree": ["Tr"]}
+    mtp = [q for q in F.fns if q.endswith("::translate_pk") and "Miniscript<Pk, Ctx>" in q]
+    ctors = {}
+    for nm, file, cont in (("Bare", "descriptor/bare.rs", "::Bare"), ("Pkh", "descriptor/bare.rs", "::Pkh"),
+                           ("Wpkh", "descriptor/segwitv0.rs", "::Wpkh"), ("Wsh", "descriptor/segwitv0.rs", "::Wsh"),
+                           ("Sh", "descriptor/sh.rs", "::Sh"), ("Tr", "descriptor/tr/mod.rs", "::Tr")):
+        try:
+            ctors[nm] = F.fn("new", file=file, container=cont)
+        except KeyError as e:
+            chk.fail(rid, "anchor|%s::new" % nm, "missing %s" % e, kind="unanalysable")
+            return
+    if not mtp:
+        chk.fail(rid, "anchor|Miniscript::translate_pk", "not found", kind="unanalysable")
+        return
+    n = 0
+    for kind in ("Bare", "Pkh", "Wpkh", "Wsh", "Sh/Wsh", "Sh/Wpkh", "Sh/Ms", "Tr/-", "Tr/tree"):
+        w, file, cont = wrap(kind)
+        try:
+            tp = F.fn("translate_pk", file="descriptor/" + file, container=cont)
+        except KeyError as e:
+            chk.fail(rid, kind + "|anchor", "missing %s" % e, kind="unanalysable")
+            continue
+        chk.saw(tp)
+        where = F.fns[tp]["span"]
+        scenarios = [("all-ok", None, None)]
+        for u in units(kind):
+            scenarios.append(("%s-mapping-fails" % u, u, "terr"))
+            if u.startswith("m"):
+                scenarios.append(("%s-illegal-in-context" % u, u, "oerr"))
+        scenarios.append(("constructor-refuses", "ctor", "ctor"))
+        for sname, unit, how in scenarios:
+            hooks = {}
+
+            def ms_translate(m_, a, c, unit=unit, how=how):
+                x = deref(a[0])
+                nm = x.fields["name"]
+                if nm == unit:
+                    return err(Adt(TE, "TranslatorErr", {"0": "E:" + nm})) if how == "terr" else \
+                        err(Adt(TE, "OuterError", {"0": "ctx:" + nm}))
+                return ok(msv("T:" + nm))
+            for q in mtp:
+                hooks[q] = ms_translate
+
+            def pk(m_, a, c, unit=unit):
+                k = deref(a[1])
+                return err("E:" + k) if k == unit else ok("T:" + k)
+            hooks["Translator::pk"] = pk
+
+            def ctor(name, unit=unit):
+                def f(m_, a, c):
+                    if unit == "ctor":
+                        return err(Term("refused", name))
+                    return ok(("built", name) + tuple(deref(x) for x in a))
+                return f
+            for nm, path in ctors.items():
+                hooks[path] = ctor(nm)
+            hooks["<TranslateErr<E> as std::convert::From<E>>::from"] = lambda m_, a, c: Adt(TE, "TranslatorErr", {"0": deref(a[0])})
+            m = Machine(F, strict=True, hooks=hooks)
+            key = "%s|%s" % (kind, sname)
+            n += 1
+            try:
+                r = m.call_callee({"def": tp, "resolved": tp, "name": "translate_pk", "targs": ["PK", "T"]}, [dcopy(w), Term("t")])
+            except Unsupported as e:
+                chk.fail(rid, "unanalysable:" + key, "unanalysable: %s" % e, where=e.where, kind="unanalysable")
+                break
+            except Panic as e:
+                chk.fail(rid, key, "panic: %s" % e, where)
+                continue
+            got = summary(r)
+            if unit is None:
+                want = built_value(kind)
+            elif unit == "ctor":
+                want = ("Err", "OuterError")
+            elif how == "terr":
+                want = ("Err", "TranslatorErr", "E:" + unit)
+            else:
+                want = ("Err", "OuterError", "ctx:" + unit)
+            good = got[:len(want)] == want if want[0] == "Err" else got == want
+            chk.obligation(rid, good, key, "translate_pk of %s with %s gives %r, expected %r" % (kind, sname, got, want), where)
+    chk.floor(rid, "wrapper x outcome cases", n, 35)
+
+
+def summary(r):
+    """comparable reading of a translate_pk result"""
+    from ..builtins import deref
+    r = deref(r)
+    if r.variant == "Err":
+        e = deref(r.fields["0"])
+        if isinstance(e, Adt):
+            return ("Err", e.variant, deref(e.fields.get("0")))
+        # the raw mapping error: `?` wraps it with From<E> for TranslateErr<E> (type-directed, the only impl that fits)
+        return ("Err", "TranslatorErr", e)
+    return ("Ok", plain(r.fields["0"]))
+
+
+def plain(v):
+    from ..builtins import deref
+    v = deref(v)
+    if isinstance(v, tuple):
+        return tuple(plain(x) for x in v)
+    if isinstance(v, PyVec):
+        return [plain(x) for x in v.items]
+    if isinstance(v, Adt):
+        if v.path == MS:
+            return "ms:" + v.fields["name"]
+        if v.path.endswith("Option"):
+            return None if v.variant == "None" else plain(v.fields["0"])
+        if v.path.endswith("TapTree"):
+            return ("tree", plain(v.fields["depths_leaves"]))
+        return (v.variant,) + tuple(plain(x) for x in v.fields.values())
+    return v
+
+
+def built_value(kind):
+    tree = ("tree", [(1, "ms:T:m0"), (2, "ms:T:m1"), (2, "ms:T:m2")])
+    return ("Ok", {"Bare": ("built", "Bare", "ms:T:m0"), "Pkh": ("built", "Pkh", "T:K0"), "Wpkh": ("built", "Wpkh", "T:K0"),
+                   "Wsh": ("built", "Wsh", "ms:T:m0"), "Sh/Wsh": ("Sh", ("Wsh", ("built", "Wsh", "ms:T:m0"))),
+                   "Sh/Wpkh": ("Sh", ("Wpkh", ("built", "Wpkh", "T:K0"))), "Sh/Ms": ("built", "Sh", "ms:T:m0"),
+                   "Tr/-": ("built", "Tr", "T:K0", None), "Tr/tree": ("built", "Tr", "T:K0", tree)}[kind])
+
+
 def run(chk):
     F = chk.facts()
     chk.explanation = (
@@ -482,3 +646,4 @@ def run(chk):
     check_tree_shape(chk, F)
     check_policy_translate(chk, F)
     check_wrappers(chk, F)
+    chk.guard("R20.7", "wrapper-outcomes", check_wrapper_outcomes, chk, F)
